@@ -526,30 +526,35 @@ Qed.
 
 (* ------------------------------------------------------------------ *)
 (* the monitors accept every observation the model produces, over whole histories *)
+Lemma nseq_length len : forall start, length (nseq start len) = len.
+Proof. induction len as [|len IH]; intros start; [reflexivity|]. cbn [nseq length]. now rewrite IH. Qed.
+
+Lemma nseq_app a : forall start b, nseq start (a + b) = nseq start a ++ nseq (start + N.of_nat a)%N b.
+Proof.
+  induction a as [|a IH]; intros start b.
+  - cbn [plus nseq app N.of_nat]. now rewrite N.add_0_r.
+  - cbn [plus nseq app]. rewrite IH.
+    replace (start + N.of_nat (S a))%N with (N.succ start + N.of_nat a)%N by lia. reflexivity.
+Qed.
+
 Lemma mk_chunks_concat sd sizes : forall pos,
-  concat (mk_chunks sd pos sizes) = map (datab sd) (seq pos (fold_right plus 0 sizes)).
+  concat (mk_chunks sd pos sizes) = map (datab sd) (nseq pos (fold_right plus 0 sizes)).
 Proof.
   induction sizes as [|k r IH]; intros pos; [reflexivity|].
-  cbn [mk_chunks concat fold_right]. now rewrite IH, seq_app, map_app.
+  cbn [mk_chunks concat fold_right]. now rewrite IH, nseq_app, map_app.
 Qed.
 
 Lemma side_data_length sd ss : length (concat (sd_chunks (side_of sd ss))) = total_of ss.
-Proof. unfold side_of, total_of. cbn [sd_chunks]. now rewrite mk_chunks_concat, map_length, seq_length. Qed.
+Proof. unfold side_of, total_of. cbn [sd_chunks]. now rewrite mk_chunks_concat, map_length, nseq_length. Qed.
 
 Lemma budget_le ws t : budget_of ws t <= t.
 Proof. destruct ws; cbn; lia. Qed.
 
 Lemma dec_enc_dir acc log rest :
-  dec_dir (enc_dir (acc, log) ++ rest) =
-  Some (map N.of_nat log, N.of_nat (length acc), hash acc, rest).
-Proof.
-  unfold enc_dir, dec_dir. cbn [fst snd app]. rewrite Nat2N.id.
-  set (l := map N.of_nat log). replace (length log) with (length l) by apply map_length.
-  rewrite <- app_assoc. rewrite skipn_len_app, firstn_len_app. cbn [app].
-  rewrite app_length. destruct (Nat.leb_spec (length l) (length l + length (N.of_nat (length acc) :: hash acc :: rest))) as [H|H]; [reflexivity|lia].
-Qed.
+  dec_dir (enc_dir (acc, log) ++ rest) = Some (N.of_nat (length acc), hash acc, rest).
+Proof. reflexivity. Qed.
 
-Lemma firstn_seq' n : forall start len, n <= len -> firstn n (seq start len) = seq start n.
+Lemma firstn_nseq n : forall start len, n <= len -> firstn n (nseq start len) = nseq start n.
 Proof.
   induction n as [|n IH]; intros start len H; [reflexivity|].
   destruct len as [|len]; [lia|]. cbn. f_equal. apply IH. lia.
@@ -557,21 +562,18 @@ Qed.
 
 Lemma model_ok_dir sd sd' a b :
   let p := pump (side_of sd a) (side_of sd' b) in
-  ok_dir sd a b (map N.of_nat (snd (fst p))) (N.of_nat (length (fst (fst p)))) (hash (fst (fst p))) = true.
+  ok_dir sd a b (N.of_nat (length (fst (fst p)))) (hash (fst (fst p))) = true.
 Proof.
   cbn zeta. pose proof (pump_spec (side_of sd a) (side_of sd' b)) as (A & B & _).
   cbn zeta in A. rewrite side_data_length in A.
   destruct (pump (side_of sd a) (side_of sd' b)) as [[acc log] t]. cbn [fst snd] in *.
   unfold ok_dir. change (sd_ws (side_of sd' b)) with (ss_ws b) in A.
   pose proof (budget_le (ss_ws b) (total_of a)) as Hle.
-  assert (Hacc : acc = map (datab sd) (seq 0 (budget_of (ss_ws b) (total_of a)))).
+  assert (Hacc : acc = map (datab sd) (nseq 0 (budget_of (ss_ws b) (total_of a)))).
   { rewrite A. unfold side_of. cbn [sd_chunks]. rewrite mk_chunks_concat. fold (total_of a).
-    rewrite firstn_map, firstn_seq' by exact Hle. reflexivity. }
+    rewrite firstn_map, firstn_nseq by exact Hle. reflexivity. }
   rewrite <- Hacc. rewrite N.eqb_refl, andb_true_r.
-  apply andb_true_iff. split.
-  - rewrite forallb_forall. intros x Hx. apply in_map_iff in Hx as (k & <- & Hk).
-    rewrite Forall_forall in B. apply le_bufsize_N, B, Hk.
-  - apply N.eqb_eq. f_equal. rewrite Hacc, map_length, seq_length. reflexivity.
+  apply N.eqb_eq. f_equal. rewrite Hacc, map_length, nseq_length. reflexivity.
 Qed.
 
 Lemma self_terminates_spec sd sd' a b :
@@ -585,7 +587,7 @@ Qed.
 Lemma model_ok_proxy cbnil a b :
   let r := proxy (side_of 1 a) (side_of 2 b) cbnil in
   mon_proxy (IEProxy cbnil a b)
-    (enc_dir (po_a r) ++ enc_dir (po_b r) ++ [N.of_nat (po_close1 r); N.of_nat (po_close2 r); N.of_nat (po_cb r)]) = [].
+    (enc_dir (po_a r) ++ enc_dir (po_b r) ++ [b2N (Nat.ltb 0 (po_close1 r)); b2N (Nat.ltb 0 (po_close2 r)); N.of_nat (po_cb r)]) = [].
 Proof.
   cbn zeta. unfold mon_proxy.
   pose proof (model_ok_dir 1 2 a b) as Ha. pose proof (model_ok_dir 2 1 b a) as Hb.
@@ -709,7 +711,7 @@ Proof.
         eexists. split; [reflexivity|]. exact HRs.
     + unfold closer_close in Hst. inversion Hst; subst st' o; clear Hst. cbn [mon_closer cl_ran].
       destruct (cl_fn s).
-      * rewrite N.eqb_refl. replace (N.of_nat (S (cl_ran s))) with (N.of_nat (cl_ran s) + 1)%N by lia.
+      * replace (N.of_nat (S (cl_ran s))) with (N.of_nat (cl_ran s) + 1)%N by lia.
         rewrite N.eqb_refl. cbn [andb fails].
         eexists. split; [reflexivity|].
         replace (N.of_nat (cl_ran s) + 1)%N with (N.of_nat (S (cl_ran s))) by lia.
